@@ -12,915 +12,1079 @@ Definition show_fres (r : fres) : string :=
   end.
 Definition check (rs : list rune) : string := digest (show_fres (format_res rs)).
 Definition full (rs : list rune) : string := show_fres (format_res rs).
-Eval vm_compute in ("<<<M1352>>>" ++ check (runes_of_ascii "// top
-options
-    // c0
-{ // c1
-StringPrefixLenType // c2a
-  // c2b
-=
-    // c3
-u8 // c4a
-  // c4b
-; ArrayPrefixLenType // c6
-= // c7
-u32 // c8
-;
-    // c9
-FixedStringPadFromLeft
-    // c10
-= true // c12a
-  // c12b
-; // c13
-FixedStringPadChar // c14
-=
-    // c15
-' ' ; } packet // c19
-Leg
-    // c20
-{ // c21a
-  // c21b
-} packet
-    // c23
-Heartbeat
-    // c24
-{ // c25
-zchar[ // c26a
-  // c26b
-6 ] msgKind // c29a
-  // c29b
-, // c30a
-  // c30b
-@rightPad
-    // c31
-( '0' ) // c34
-char[ // c35a
-  // c35b
-3 // c36a
-  // c36b
-]
-    // c37
-Qty , zchar[
-    // c40
-9 // c41a
-  // c41b
-] // c42
-Side2 , i8
-    // c45
-Acct // c46
-, // c47a
-  // c47b
-} // c48
-packet // c49a
-  // c49b
-Logout // c50
-{ // c51a
-  // c51b
-int8 // c52
-x
-    // c53
-, // c54a
-  // c54b
-} // c55
-packet
-    // c56
-Order // c57a
-  // c57b
-{ char[]
-    // c59
-Acct ,
-    // c61
-zchar[ // c62a
-  // c62b
-8 // c63
-] count // c65a
-  // c65b
-,
-    // c66
-u32 // c67
-OrderId
-    // c68
-, uint8 lastPx // c71a
-  // c71b
-,
-    // c72
-u16
-    // c73
-clOrdID // c74
-,
-    // c75
-zchar[
-    // c76
-7
-    // c77
-] // c78a
-  // c78b
-Note // c79
-, } // c81a
-  // c81b
-root
-    // c82
-packet // c83
-Reject // c84a
-  // c84b
-{ // c85
-@leftPad ( ' ' ) // c89a
-  // c89b
-char[
-    // c90
-8 ]
-    // c92
-Side2 // c93
-, // c94a
-  // c94b
-i8 // c95a
-  // c95b
-clOrdID // c96
-, // c97a
-  // c97b
-repeat
-    // c98
-f32
-    // c99
-x , // c101
-u32 // c102a
-  // c102b
-lastPx , // c104
-match lastPx as
-    // c107
-Body
-    // c108
-{ // c109a
-  // c109b
-[
-    // c110
-30 ,
-    // c112
-147 ] : // c115a
-  // c115b
-Heartbeat , 134 // c118a
-  // c118b
-: // c119a
-  // c119b
-Leg // c120
-, // c121
-183 // c122
-:
-    // c123
-Logout
-    // c124
-, // c125a
-  // c125b
-40 // c126
-: // c127a
-  // c127b
-Order
-    // c128
-, // c129a
-  // c129b
-}
-    // c130
-, u16 // c132a
-  // c132b
-Ref // c133
-@calculatedFrom( // c134a
-  // c134b
-""CRC32"" ) // c136a
-  // c136b
-, // c137
-} // c138
-")).
-Eval vm_compute in ("<<<M1909>>>" ++ check (runes_of_ascii "
-options  {StringPrefixLenType =
+Eval vm_compute in ("<<<M1705>>>" ++ check (runes_of_ascii "
+MetaData
 
-    u16
-
-    ;ArrayPrefixLenType
-
-=	u16;
-	} 
-packet
-
-    SampleBinary {uint16 MsgType	`" ++ [28040; 24687; 31867; 22411]%N ++ runes_of_ascii "` , u16
-    BodyLenght
-	@lengthOf(
-	Body
-	)
-`" ++ [28040; 24687; 20307; 38271; 24230]%N ++ runes_of_ascii "`  ,
-
-    match
-MsgType as
-
-    Body{1: Logon, 2:
-
-    Logout
-	,
-3 :Heartbeat
-,	4
-:
-RiskControlRequest
-, 5 
-:
-RiskControlResponse 
-,},@calculatedFrom( ""CRC32"" )
-    u32	Ckecksum  `" ++ [26657; 39564; 21644]%N ++ runes_of_ascii "` , } packet  Logon	{ @leftPad
-    (  '0'  )
+    asx
+    { char[] MetaDataX
+    ,
+    lengthOf
+Z9_ , crc Foo,
 	char[
+4294967296  ] BodyLength
+,
 
-10 
-]UserName`" ++ [29992; 25143; 21517]%N ++ runes_of_ascii "` ,string	Password
-`" ++ [23494; 30721]%N ++ runes_of_ascii "`  ,  uint64
+Foo
 
-ClientId	`" ++ [23458; 25143; 31471]%N ++ runes_of_ascii "ID`, 
-u16 HeartbeatInterval 
-`" ++ [24515; 36339; 38388; 38548]%N ++ runes_of_ascii "` , } 
-packet 
-Logout
-{ 
-@rightPad(
+    leftPad `doc`
+
+    ,
+    tag // a // b
+
+  u128
+
+    ,
+    }
+
+root
+
+    packet 
+stringy
+{ 	 // trailing space 
+	match
+Header  as repeatCount
+
+{ [
+
+    ""{,}""] :
+
+    Header  
+      /// triple
+	//
+  ,
+
+    255 
+:
+
+    repeatCount,
+
+    00
+: 
+pack  , 1
+	: trueish ,
+
+    7
+	:
+
+A
+    } ,T
+{Z9_`
+` ,	}, int16 o
+    @calculatedFrom( ""it's"" )
+`line1
+line2`
+, match 
+zchar as
+
+    As { ""CRC32""
+:a1  ,42
+	:	Header
+
+[
+10
+	//
+]
+:
+zchar // trailing space 
+,
+} 	 // " ++ [128512]%N ++ runes_of_ascii " emoji
+	,	@tag( 
+42
+    )
+
+repeat
+    i64_  { 
+
+    // c
+  char[
+	00
+
+]  _x 
+`{ , }` 
+, }
+
+,repeat //x
+
+	char[]uint8x
+
+    `crlf
+line`
+
+,@leftPad(
+    '\x00') @tag( 
+7 
+)
+
+int32
+
+// a // b
+// @lengthOf(
+
+	repeatCount@calculatedFrom(
+
+    ""x y""
+    ) `// not a comment`
+	,u32
+zchar `
+`	,	repeat  stringy	{ 
+i8i8
+    lengthOf ,}
+
+    ,// packet A { u8 x, }
+  @calculatedFrom(
+    ""abc"")
+
+@lengthOf( tag  )@lengthOf( /// triple
+      rootA)	char[
+3
+]  // c
+
+	rootA
+`" ++ [233]%N ++ runes_of_ascii "` ,	// c
+}  MetaData crc	{
+
+float32
+asx
+	`" ++ [233]%N ++ runes_of_ascii "` ,
+
+string
+i64_ // " ++ [128512]%N ++ runes_of_ascii " emoji
+
+, }
+root
+packet
+
+Packet
+
+//
+{
+charz
+@lengthOf(
+    zchar  )  ,f32  f32a
+`{ , }` 	 // a // b
+		,
+i64
+matchKey @lengthOf(
+leftPad  )
+
+,	string trueish ,
+    @leftPad
+
+( 
+'0'  )
+        // trailing space 
+		tag
+	@lengthOf(// a // b
+
+string_
+)`doc`
+,match	stringy 
+        // @lengthOf(
+    // @lengthOf(
+	as 
+calculatedFrom
+
+    {[ 0123456789
+	] :repeatCount 
+	    //	t
+  	//
+  ,
+}  ,// trailing space 
+	  char[3
+] 
+Header,
+
+int64
+MetaDataX 
+, @leftPad
+
+(
+    )len
+
+    {  packetx  @lengthOf(	chars 
+)
+
+    ``	,	}
+, @rightPad (
 	'0'
 
-)  char[ 
-10
-]
+) x_y_z ,
 
-UserName	`" ++ [29992; 25143; 21517]%N ++ runes_of_ascii "` ,  uint64
-	ClientId`" ++ [23458; 25143; 31471]%N ++ runes_of_ascii "ID`
+    }	options
 
-    ,	} packet Heartbeat
-{
-}
-packet	RiskControlRequest 
-{ string
-UniqueOrderId`" ++ [21807; 19968; 35746; 21333; 21495]%N ++ runes_of_ascii "`,
-	char[ 16
-    ]  ClOrdID	`" ++ [23458; 25143; 35746; 21333; 21495]%N ++ runes_of_ascii "` ,
-	char[ 3
-]MarketID`" ++ [24066; 22330]%N ++ runes_of_ascii "id`
-,char[12 ]
-    SecurityID
-`" ++ [35777; 21048; 20195; 30721]%N ++ runes_of_ascii "`,
-	char
-    Side
-	`" ++ [20080; 21334; 26041; 21521]%N ++ runes_of_ascii "`
-, char
-	OrderType`" ++ [35746; 21333; 31867; 22411]%N ++ runes_of_ascii "`,u64
-Price 
-`" ++ [20215; 26684]%N ++ runes_of_ascii "` ,
-u32 Qty
+    { rootA 
+    // packet A { u8 x, }
 
-    `" ++ [25968; 37327]%N ++ runes_of_ascii "`
-	, repeat string  ExtraInfo
-	`" ++ [38468; 21152; 20449; 24687]%N ++ runes_of_ascii "`
-    ,
+  //x
+  ='0'  ;
+	Foo=char;
 
-repeat 
-SubOrder {
+A=
+    zchar[0123456789
 
-char[
-16
-]ClOrdID
-`" ++ [23376; 35746; 21333; 21495]%N ++ runes_of_ascii "`
-	,
-u64 Price`" ++ [23376; 35746; 21333; 20215; 26684]%N ++ runes_of_ascii "`
-,
-
-    u32	Qty  `" ++ [23376; 35746; 21333; 25968; 37327]%N ++ runes_of_ascii "`
-    ,}
-,
-}packet 
-RiskControlResponse  {
-
-    string UniqueOrderId
-
-    `" ++ [21807; 19968; 35746; 21333; 21495]%N ++ runes_of_ascii "` ,  i32
-
-    Status `" ++ [29366; 24577]%N ++ runes_of_ascii "` 
-,	string
-	Msg	`" ++ [32467; 26524; 20449; 24687]%N ++ runes_of_ascii "` 
-,  repeat
-
-    Detail ,
-}
-    packet Detail
-
-    {
-
-    string
-RuleName
-`" ++ [35268; 21017; 21517; 31216]%N ++ runes_of_ascii "`
-    ,  u16 Code `" ++ [21407; 22240; 20195; 30721]%N ++ runes_of_ascii "` ,  }
-
-")).
-Eval vm_compute in ("<<<M8>>>" ++ check (runes_of_ascii "// @lengthOf(
-packet Pad { zchar[
-    0 ]Header @calculatedFrom(
-""a	b"" ) // " ++ [27880; 37322]%N ++ runes_of_ascii "
-`say ""hi""` , @calculatedFrom(
-    ""a\""b"" // a // b
-)  body @lengthOf( body// `tick` ""quote"" 'q'
-)`say ""hi""` , u16 stringy@lengthOf(
-    // trailing space 
-    trueish ) , @lengthOf( rootA) f64 Foo `say ""hi""` // c
-,u16 Z9_ , x_y_z , }
-    MetaData metadata { uint64 x , trueish chars//
-,
-    asx lengthOf `u8 x,`  ,
-} options { body // a // b
-=	""packet"" } root
-    packet MetaDataX {zchar[
-42	]
-a1
-,Packet x_y_z // " ++ [27880; 37322]%N ++ runes_of_ascii "
-, u8 Foo
-    `u8 x,` , u64
-//	t
-/// triple
-tag, @tag( 1 //x
-)  string x_y_z @calculatedFrom( ""x y"" ) ,f32 Logon	, _x ,charz // a // b
-{
-    rootA metadata `crlf
-line`
-    , Header @calculatedFrom( ""\" ++ [233]%N ++ runes_of_ascii """ ) `` ,
-i64_`line1
-line2`
-    // @lengthOf(
-    , } ,@lengthOf(
-a1// `tick` ""quote"" 'q'
-) string
-As	`doc`
-    , @tag(
-1 ) match As
-    as	trueish
-    //	t
-    {
-    [ ""`tick`""
-    // trailing space 
-    ] :charz,  ""packet"": asx , 42  :
-packetx, [ ""a\\"" ] :
-u }
-,
-}
-/// triple
-")).
-Eval vm_compute in ("<<<M196>>>" ++ check (runes_of_ascii "root  packet u { match //x
-T as body// c
-{
-[
-""a\""b""
-    , 3 ] :
-stringy  ""a	b"" : charz // a // b
-,
-    10:  lengthOf// " ++ [128512]%N ++ runes_of_ascii " emoji
-, ""CRC32"" : falsey
-,
-    0123456789 : _x ,
-    } , body @lengthOf( i64_ )
-, u64 chars
-`u8 x,` ,T {i64_ string_,
-    u32 metadata , zchar[ 1
-]Z9_,}
-    // c
-    ,@calculatedFrom( ""a\\"" ) rootA // " ++ [128512]%N ++ runes_of_ascii " emoji
-x_y_z
-`u8 x,` ,
-    zchar[ 007 ]body @calculatedFrom(
-""\n""
-) ,
-    @leftPad (
-'0') @rightPad
-    ( '0' )
-@calculatedFrom( """ ++ [233]%N ++ runes_of_ascii "t" ++ [233]%N ++ runes_of_ascii """
-    )	repeat uint64 A	, repeat  u8x
-    { match
-o
-as
-x
-    {
-    10	:charz
+] 
 // " ++ [27880; 37322]%N ++ runes_of_ascii "
-// " ++ [27880; 37322]%N ++ runes_of_ascii "
-,""a	b"": matchKey
-, ""x y""
-:
-    trueish ,[ """ ++ [233]%N ++ runes_of_ascii "t" ++ [233]%N ++ runes_of_ascii """ ] : zchar,""1"" : charz // " ++ [27880; 37322]%N ++ runes_of_ascii "
-,
-[ ""a\""b"" ,
-""abc""
-, ""a\\"", ""abc"" ,
-// packet A { u8 x, }
-// " ++ [128512]%N ++ runes_of_ascii " emoji
-""""
-// packet A { u8 x, }
-/// triple
-] : u8x, } ,	},repeat falsey { rootA
-    tag ,
-    zchar[/// triple
-0 ] falsey ,  }
-    , charz a1 `{ , }`
-, } root
-packet /// triple
-Header{}
+	//x
+    	;  packetx =
+
+    """ ++ [233]%N ++ runes_of_ascii "t" ++ [233]%N ++ runes_of_ascii """
+float =
+
+    true } 	 //x
 ")).
-Eval vm_compute in ("<<<M280>>>" ++ check (runes_of_ascii "packet	crc{@lengthOf( stringy// a // b
-) @leftPad (
-'0'
-    ) @calculatedFrom(
-""packet"" )
-repeat char[
-    // c
-    3]  i64_ // a // b
-, match
-    options1	as o { 255 :msg_type
-,
-    ""\n"": MetaDataX , 42: msg_type """ ++ [128512]%N ++ runes_of_ascii """
-    : lengthOf,""// no comment"" :falsey , }
-/// triple
-// trailing space 
-, @leftPad( )
-    @lengthOf( A
-    ) @calculatedFrom( ""x y"" ) uint32// a // b
-charz `doc`, len ,@calculatedFrom( ""// no comment"" ) match _x
-    //x
-    as i64_	{ 65535
-    :
+Eval vm_compute in ("<<<M1604>>>" ++ check (runes_of_ascii "packet asx {
+    leftPad @calculatedFrom(""" ++ [233]%N ++ runes_of_ascii "t" ++ [233]%N ++ runes_of_ascii """),
+    @leftPad('0')
+    // trailing space 
+    u8x As `crlf
+    line`,
+    char[3] asx @calculatedFrom(""{,}""),
     // @lengthOf(
-    u8x , } ,
-char[]
-    a1 // @lengthOf(
-, Foo { u8x{ char[]
-Logon
-    `// not a comment`	,}, match metadata as u128 { // trailing space 
-42 : u8x
-, 65535 : f32a
-    } //x
-, asx// " ++ [128512]%N ++ runes_of_ascii " emoji
-@lengthOf( matchKey  ) ,} , roots @calculatedFrom( // packet A { u8 x, }
-""a\""b"" )
-,	zchar[
-7] int	, repeat pack	trueish ,
-    }
-")).
-Eval vm_compute in ("<<<M1439>>>" ++ check (runes_of_ascii "// trailing space 
-options {
-    f32a = false;
-    stringy = true;
-    u = ""\" ++ [233]%N ++ runes_of_ascii """;
-    stringy = false;
-}
-
-packet options1 {
-}
-
-MetaData packetx {
-    f32 uint8x,
-}
-
-root packet zchar {
-    @tag(4294967296)
-    @lengthOf(a1)
-    i8 _x `it's`,//x
-    char[] o,
-    body,
-    zchar[65535] msg_type `crlf
-        line`,
-    repeat BodyLength {
-        repeat char[65535] stringy,
+    // trailing space 
+    repeat u128 {
+        int {
+            packetx @calculatedFrom(""packet""),
+            match T as T {
+                ""a	b"" : o,
+            },
+            zchar[00] lengthOf `{ , }`,
+            /// triple
+            // trailing space 
+            char[] crc @calculatedFrom(""abc""),
+        },
+        Header @calculatedFrom(""" ++ [233]%N ++ runes_of_ascii "t" ++ [233]%N ++ runes_of_ascii """) `two words`,
+        repeat uint8 uint8x,
+        repeat char[0123456789] float `u8 x,`,
     },
-    @calculatedFrom(""" ++ [128512]%N ++ runes_of_ascii """)
-    @tag(10)
-    repeat f32 lengthOf `line1
-        line2`,
-    repeat u {
-        uint32 Z9_,//
-        repeat body `
-                `,
+    packetx x `say ""hi""`,
+    @rightPad()
+    i8i8 @calculatedFrom(""x y""),
+    @leftPad()
+    BodyLength {
+        repeat int32 _x ``,
+        i8 msg_type `doc`,
     },
-    @tag(4294967296)
-    i64_ @lengthOf(tag),
-    @lengthOf(float)
-    @lengthOf(packetx)
-    @calculatedFrom(""" ++ [128512]%N ++ runes_of_ascii """)
-    repeat x_y_z u,
-    @tag(65535)
-    u8 A,
-}//")).
-Eval vm_compute in ("<<<M1418>>>" ++ check (runes_of_ascii "packet
-	metadata {@rightPad() zchar[ 
-//	t
-  // `tick` ""quote"" 'q'
-  0123456789] i64_ 
-      // @lengthOf(
-@calculatedFrom(
-""\n""
-
-    ) , @leftPad (	' ' // " ++ [27880; 37322]%N ++ runes_of_ascii "
-	)
-    zchar[ 	 // `tick` ""quote"" 'q'
-		255 ]
-MetaDataX
-
-    `{ , }` 	 // a // b
-
-	,@rightPad (' '	)	@calculatedFrom(  ""abc"")	// " ++ [128512]%N ++ runes_of_ascii " emoji
-  	@lengthOf(	matchKey 
+}
 
 // `tick` ""quote"" 'q'
-  // `tick` ""quote"" 'q'
-  )	repeat char[42
-	] 
-packetx	// packet A { u8 x, }
-		`" ++ [233]%N ++ runes_of_ascii "`  ,	trueish
-@calculatedFrom(
-    ""packet""	) 
-`a\`, 
-matchKey int
-`" ++ [28040; 24687; 31867; 22411]%N ++ runes_of_ascii "` ,  @tag( 
-
-    // c
-0
-) len
-
-    { char[
-65535 ]
-
-    Header,
-
+// packet A { u8 x, }
+packet body {
 }
+
+packet repeatCount {
+    zchar[3] Packet,
+    @lengthOf(Header)
+    i64 Packet `two words`,
+    zchar[65535] calculatedFrom `tab	here`,
+    match x as leftPad {
+        ""// no comment"" : rootA,
+        ""`tick`"" : o,
+    },// " ++ [128512]%N ++ runes_of_ascii " emoji
+    zchar[3] u128 @calculatedFrom(""{,}"") `{ , }`,
+}
+
+//	t
+options {
+    u = char[42]// " ++ [27880; 37322]%N ++ runes_of_ascii "
+    metadata = ""a\\"";
+    Logon = string;
+    Z9_ = u16;
+}")).
+Eval vm_compute in ("<<<M1364>>>" ++ check (runes_of_ascii "options { // c1
+LittleEndian = // c3
+true ; // c5a
+  // c5b
+StringPrefixLenType = // c7
+u64 // c8a
+  // c8b
+; // c9a
+  // c9b
+ArrayPrefixLenType // c10
+= // c11
+u16 // c12
+; // c13a
+  // c13b
+FixedStringPadFromLeft
+    // c14
+= // c15a
+  // c15b
+false // c16
+; FixedStringPadChar = ' ' // c20a
+  // c20b
+; } packet // c23a
+  // c23b
+Logon // c24a
+  // c24b
+{ // c25a
+  // c25b
+zchar[ 5 // c27
+] // c28a
+  // c28b
+Side2 // c29
+, // c30
+} root
+    // c32
+packet Logout
+    // c34
+{ // c35
+repeat i64 // c37a
+  // c37b
+Tail , // c39a
+  // c39b
+Logon // c40
+, // c41a
+  // c41b
+repeat i16 // c43
+OrderId
+    // c44
 ,
-@lengthOf( f32a	)
-zchar[10 ] 
-trueish `crlf
-line`
-    ,
-	}
+    // c45
+char[] venue
+    // c47
+,
+    // c48
+uint64 x // c50
+, // c51a
+  // c51b
+repeat
+    // c52
+i16 // c53
+count // c54a
+  // c54b
+, u8
+    // c56
+Flags // c57
+, // c58
+match // c59a
+  // c59b
+Flags // c60
+as // c61
+Body // c62
+{ // c63a
+  // c63b
+25
+    // c64
+: // c65a
+  // c65b
+Logon , // c67
+} , // c69
+u16 // c70
+Qty // c71a
+  // c71b
+@calculatedFrom( // c72
+""CRC32"" ) , // c75
+} // c76
 ")).
-Eval vm_compute in ("<<<M1658>>>" ++ check (runes_of_ascii "  packet
-tag {string matchKey `line1
-line2` , @tag(
-	0
-	) 	 // c
-	@calculatedFrom(
-    ""1"" )  @calculatedFrom(// " ++ [128512]%N ++ runes_of_ascii " emoji
-""a\""b""
-	) float64
-    matchKey
-,} options
+Eval vm_compute in ("<<<M1309>>>" ++ check (runes_of_ascii "// top
+packet // c0a
+  // c0b
+A { // c2
+u8 // c3a
+  // c3b
+a , // c5
+} // c6a
+  // c6b
+packet // c7a
+  // c7b
+B {
+    // c9
+u16 b // c11
+, } // c13a
+  // c13b
+packet // c14
+C
+    // c15
 {
-	crc
-
-    =
-
-    true msg_type  
-  //	t
-
-	=
-
-true
-; }
-	packet
-o { 
-match
-	roots as  calculatedFrom {
-""// no comment"" 
-  // packet A { u8 x, }
-	  : 
-msg_type
-
-,  ""{,}"": u128
-	,	[65535	,0123456789
-    ]  /// triple
+    // c16
+u32
+    // c17
+c // c18
+, // c19a
+  // c19b
+}
+    // c20
+root packet // c22a
+  // c22b
+M // c23
+{ u16 Kc
+    // c26
+,
+    // c27
+u16 // c28a
+  // c28b
+Kb , // c30
+u16 Ka
+    // c32
+, match // c34a
+  // c34b
+Kc // c35
+as X
+    // c37
+{
+    // c38
+9 // c39
 :
-body ,	// " ++ [128512]%N ++ runes_of_ascii " emoji
-	  } , @rightPad
-	(' ') 
-repeat string_ i64_
-
-    ,	@lengthOf( 
-lengthOf
-    )@tag(255	// packet A { u8 x, }
-
-  )
-    @tag(
-	00 )  char[]  stringy 
-, }
-")).
-Eval vm_compute in ("<<<M1384>>>" ++ check (runes_of_ascii "  options{  ArrayPrefixLenType	=
-u64 ;  FixedStringPadFromLeft
-
-    =
-true;FixedStringPadChar 
-=	'0' ;}
+    // c40
+A
+    // c41
+, 10 :
+    // c44
+B
+    // c45
+,
+    // c46
+} , match
+    // c49
+Kb // c50
+as // c51a
+  // c51b
+Y // c52
+{ 2 // c54a
+  // c54b
+:
+    // c55
+C , // c57
+1 // c58
+: A , // c61a
+  // c61b
+} // c62
+, // c63a
+  // c63b
+match
+    // c64
+Ka as // c66
+Z // c67
+{
+    // c68
+1 // c69a
+  // c69b
+: B // c71a
+  // c71b
+, // c72
+} // c73a
+  // c73b
+, // c74
+A // c75a
+  // c75b
+, // c76
+B
+    // c77
+,
+    // c78
+C , // c80
+} ")).
+Eval vm_compute in ("<<<M1419>>>" ++ check (runes_of_ascii "
+// " ++ [27880; 37322]%N ++ runes_of_ascii "
     packet
-Quote  {  }  packet
-Ack
-    {
-	repeat
 
-    InNote66
-{u8 pad0
-,  },}
-packet
-	Reject {  }	root packet
-Order 
-{ Quote,  repeat
+    chars  { 
+match charz  as 
 
-    Reject 
-, string venue, string seqNo
+    // trailing space 
+
+A  // trailing space 
+{
+
+    0123456789 : rootA ,	42  :
+x
+,""1"" :
+	Logon
+
+,
+7 :	u
 
 ,
 
-    uint32 Ref ,
-	u16 lastPx  , u32
-clOrdID
-    @lengthOf(
+    ""\n""	:
+packetx,
+	} ,
+char[]  MetaDataX  @calculatedFrom("""" ) `" ++ [233]%N ++ runes_of_ascii "`
+// trailing space 
+	,
+    @leftPad ( ' ' )  char[]
 
-Body 
-)
-    ,
-match lastPx 
-as  Body  { 190 : Reject ,
-	186
-	:
-    Quote
+    Foo  , crc
 
-,	22
+    ,f64
 
-    : Ack
-, 
-} , u16
+string_  , // " ++ [128512]%N ++ runes_of_ascii " emoji
+    	char[]  packetx
+	,  i64
+u8x  @lengthOf(
+stringy
 
-    Flags  @calculatedFrom(""CRC32"")	, 
-}
+    ) `// not a comment`  ,	repeat
 
-")).
-Eval vm_compute in ("<<<M264>>>" ++ check (runes_of_ascii "options  {
-    float
-=
-    char[]
-} // packet A { u8 x, }
-root packet
-    Logon
-    { @tag( 1 ) // a // b
-@calculatedFrom( ""packet""
-// a // b
-// " ++ [128512]%N ++ runes_of_ascii " emoji
-)zchar[ 3 ]
-// c
-//x
-Z9_ ,@lengthOf( charz )
-@calculatedFrom( ""1""
-)match
-roots
-as int
-    { ""a	b""
-:MetaDataX , }
-    ,@calculatedFrom( ""a\""b""	)
-    match
-    asx as lengthOf { """ ++ [128512]%N ++ runes_of_ascii """
-    : _x,
-[ 255 ] : BodyLength
-    ,3 :
-    u8x , 0123456789:T} ,
-    len@lengthOf(leftPad )`u8 x,` , } // @lengthOf(")).
-Eval vm_compute in ("<<<M1894>>>" ++ check (runes_of_ascii "MetaData u128 {
-    string zchar `two words`,
-    u16 packetx `a\`,
-    char[1] Logon,
-    len crc,
-    char[7] i8i8,
-    char[] calculatedFrom,
-}
-
-MetaData u {
-    u u128,
-}
-
-root packet metadata {
-}
-
-options {
-    matchKey = 255;
-    x_y_z = 007
-    crc = int16;
-    zchar = char[42];
-    int = true;
-}
-
-options {
-    Header = """ ++ [128512]%N ++ runes_of_ascii """;
-    len = ' ';
-    matchKey = """";
-    MetaDataX = ' ';
-    o = '\x00';
-}")).
-Eval vm_compute in ("<<<M1812>>>" ++ check (runes_of_ascii "MetaData pack {
-    int16 rootA `{ , }`,
-    int16 x,
-    u32 msg_type,
-}
-
-packet i64_ {
-    @leftPad('0')
-    @rightPad('\x00')
-    @lengthOf(options1)
-    string body @lengthOf(asx) `" ++ [233]%N ++ runes_of_ascii "`,
-}
-
-options {
-    msg_type = 00;
-}
-
-MetaData stringy {
-    zchar MetaDataX `line1
-    line2`,
-    char[255] len `it's`,
-    f32 pack,
-    uint16 Foo `it's`,
-    int16 i64_ `two words`,
-}")).
-Eval vm_compute in ("<<<M1708>>>" ++ check (runes_of_ascii "
-options { LittleEndian  =  true
-	; StringPrefixLenType	= u16
-    ;
-
-FixedStringPadChar
-
-=' ';
-    } 
-packet
-Logon
+    zchar
 
 {
-@leftPad(	'0' )	char[ 
-10
-] tag7	,
-	}
-root 
-packet	Ack
-{ int32
-Px
-    ,
-
-    uint16
-count 
+repeat
+A
+    _x
 ,
 
-    string Qty  ,
+    lengthOf @lengthOf(u8x
+),
 
-string OrderId 
+    match
+    A
+as  matchKey
+
+    {3
+
+    : 
+Z9_ 
 ,
-string
-	Flags
-,u8
-	x, match x as Body {
+    ""// no comment""	:
+	As 
+00//x
+:
+i64_, 
+    // a // b
+    	// " ++ [128512]%N ++ runes_of_ascii " emoji
+	  ""a\\""  : i64_ ,
     [
-	58 , 169 ]  : Logon , }
 
-    ,
-} ")).
-Eval vm_compute in ("<<<M1409>>>" ++ check (runes_of_ascii "options {
-    LittleEndian = true;
+    ""`tick`""  /// triple
+  ] :
+	T ,  } , 
+        // a // b
+    // packet A { u8 x, }
+    	uint32
+	T `" ++ [28040; 24687; 31867; 22411]%N ++ runes_of_ascii "`
+
+,
+	} ,uint64 
+/// triple
+  charz
+
+    ,}
+")).
+Eval vm_compute in ("<<<M1739>>>" ++ check (runes_of_ascii "options
+    {	StringPrefixLenType= u8
+
+;
+
+    ArrayPrefixLenType
+    = u32 ; FixedStringPadFromLeft =  true ;
+
+    FixedStringPadChar =' '
+
+; 
+}  packet 
+Leg { 
+}
+packet
+	Heartbeat
+
+    {
+	zchar[
+
+    6
+
+]
+msgKind
+	, @rightPad ( 
+'0'
+)char[  3  ]Qty,zchar[
+9 ]
+
+    Side2
+,  i8	Acct
+
+,
+}packet Logout
+{
+int8
+	x  ,  }
+packet Order { char[]
+Acct	,
+zchar[ 8
+]
+count  ,  u32
+	OrderId,
+uint8
+
+    lastPx,
+	u16 clOrdID	, 
+zchar[
+7 
+]
+
+Note,
+    }
+root
+	packet
+    Reject
+
+    {@leftPad	(	' '
+	)
+char[ 8 ] 
+Side2  , i8
+clOrdID,
+repeat 
+f32 x	, u32 lastPx  ,
+    match lastPx as
+Body 
+{
+    [
+    30
+,
+147  ]: Heartbeat
+,	134  :
+	Leg 
+,  183
+
+    :	Logout
+,40	: Order
+,}	, u16  Ref@calculatedFrom(
+""CRC32""
+    ), }
+")).
+Eval vm_compute in ("<<<M1786>>>" ++ check (runes_of_ascii "MetaData	u128
+
+{ 
+zchar[
+	3 ]matchKey
+	`crlf
+line` //
+  , }// packet A { u8 x, }
+
+options
+{	//x
+
 }
 
-packet Logon {
-    u8 x,
+    root
+packet
+
+    rootA{ @calculatedFrom(	""{,}""
+
+    )	repeat
+    u16
+	len
+    ,repeat
+    body 
+, i8i8
+@lengthOf(
+	packetx ),
+    metadata
+    int
+	`line1
+line2` ,
+
+uint8x
+    `two words` 	 // c
+    	,
+
+int16 //
+    	x_y_z
+
+,  repeatCount	, 
+Logon 
+{	repeat  // trailing space 
+	  i8
+Packet `line1
+line2`	,
+}
+	,
+
+    }options
+
+    {// " ++ [128512]%N ++ runes_of_ascii " emoji
+    	lengthOf 
+//
+  // trailing space 
+	=
+' '
+
+    ;
+i64_
+
+= ""{,}"" ;
+    msg_type
+=
+	'0'
+
+    ; 
+u
+    =
+// packet A { u8 x, }
+    // " ++ [27880; 37322]%N ++ runes_of_ascii "
+  i32
+    ;	_x
+	=
+""abc"" 
+	// packet A { u8 x, }
+
+	;
+    } ")).
+Eval vm_compute in ("<<<M1861>>>" ++ check (runes_of_ascii "root packet falsey {
+    @tag(255)
+    len @calculatedFrom(""`tick`""),
+    match MetaDataX as crc {
+        [7] : roots,
+    },
+    @tag(10)
+    @tag(10)
+    @tag(255)
+    repeat uint64 rootA,
+    tag `" ++ [28040; 24687; 31867; 22411]%N ++ runes_of_ascii "`,
+    float32 i64_,
+    int64 _x `doc`,
+    @leftPad(' ')
+    match i8i8 as pack {
+        // `tick` ""quote"" 'q'
+        7 : Logon,
+        ""x y"" : lengthOf,
+    },// trailing space 
+    match x_y_z as u {
+        // `tick` ""quote"" 'q'
+        // " ++ [27880; 37322]%N ++ runes_of_ascii "
+        [0123456789] : packetx,
+        007 : x_y_z,
+        10 : rootA,
+        7 : u,
+        0123456789 : falsey,
+    },// packet A { u8 x, }
+}")).
+Eval vm_compute in ("<<<M1754>>>" ++ check (runes_of_ascii "options {
+    StringPrefixLenType = u8;
+    ArrayPrefixLenType = u8;
+    FixedStringPadFromLeft = false;
+    FixedStringPadChar = ' ';
+}
+
+packet Ack {
+    char[] tag7,
+}
+
+packet Reject {
+    InSym61 {
+        repeat Ack,
+        zchar[4] f1,
+    },
 }
 
 packet Logout {
-    u16 reason,
+    char[4] clOrdID,
 }
 
-root packet Frame {
-    u16 Kind,
-    u16 Kind2,
-    match Kind as Body {
-        1 : Logon,
-        [2, 3, 4] : Logout,
-        100 : Logon,
+root packet Cancel {
+    @leftPad(' ')
+    char[10] price,
+    u8 x,
+    u32 venue @lengthOf(Body),
+    match x as Body {
+        [92, 175] : Logout,
+        26 : Reject,
+        144 : Ack,
     },
-    match Kind2 as Trailer {
-        0 : Logout,
-    },
+    u16 count @calculatedFrom(""CR\
+        C32""),
 }")).
-Eval vm_compute in ("<<<M215>>>" ++ check (runes_of_ascii "root	packet
-    i8i8 { @tag( // c
-4294967296 )
-    // packet A { u8 x, }
-    Header  calculatedFrom `
-`
-, @tag(4294967296 )
-@rightPad ( ' '
-    )
-@lengthOf( float )
-    options1 zchar `" ++ [233]%N ++ runes_of_ascii "`
-//x
-/// triple
-,}	root packet
-    // " ++ [128512]%N ++ runes_of_ascii " emoji
-    x {repeat
-zchar[  10 ]	x`u8 x,`,
-    }")).
-Eval vm_compute in ("<<<M1929>>>" ++ check (runes_of_ascii "packet A {
-    // c2a
-    // c2b
-    u8 a,
-}// c6a
+Eval vm_compute in ("<<<M1795>>>" ++ check (runes_of_ascii "//	t
+packet
+    u8x  { u8x	{ body
+	@calculatedFrom( ""`tick`""
+) 
+`say ""hi""` , match  a1
+as
+	asx // c
+  {
+//	t
 
-// c6b
-packet B {
-    // c9
-    u16 b,// c12
-}// c13a
+0	:
+    // " ++ [27880; 37322]%N ++ runes_of_ascii "
 
-// c13b
-root packet P {
-    u8 K,
-    match K as M {
-        // c25a
-        // c25b
-        1 : A,
-        // c29
-        1 : B,
-    },
-}")).
-Eval vm_compute in ("<<<M18>>>" ++ check (runes_of_ascii "packet roots
-// a // b
-// " ++ [128512]%N ++ runes_of_ascii " emoji
-{ // " ++ [27880; 37322]%N ++ runes_of_ascii "
-@tag(0
+  // @lengthOf(
+
+	asx}  ,}, 
+@rightPad (
+) match
+
+    Logon as  x
+
+{
+    [00  ,
+""// no comment""
+
+    ,
+
+""a\\"" , 0123456789
+// trailing space 
+
+, 4294967296] :crc	, 
+00
+: options1, 	 // " ++ [27880; 37322]%N ++ runes_of_ascii "
+    42 : i8i8 ,
+    0
+
+:  o
+	0123456789 :
+body
+, }	, @tag(
+    7 
 )
-    repeat // `tick` ""quote"" 'q'
-zchar[
+    float@lengthOf(
+
+stringy	)`" ++ [233]%N ++ runes_of_ascii "` 
+,
+    u
+        // c
+    @lengthOf(msg_type
+    )
+    ,
+    }")).
+Eval vm_compute in ("<<<M1848>>>" ++ check (runes_of_ascii "
+packet	crc
+	    // a // b
+    	//x
+	  {u128
+    packetx, // " ++ [128512]%N ++ runes_of_ascii " emoji
+
+match
+	roots
+as
+//
+
+	falsey
+    {
+
+0123456789// a // b
+    :
+Header  ""packet"" 	 // a // b
+  	: // a // b
+  Z9_
+3: A 
+, 
+    // trailing space 
+// a // b
+  ""a	b"" 
+: 
+roots
+10
+
+:  _x	,  }	,@tag( 255 	 // a // b
+  ) match
+calculatedFrom
+as
+o
+{  255  : string_
+""" ++ [28040; 24687]%N ++ runes_of_ascii """
+:
+    i64_  ,
+
+    } ,}
+MetaData
+T
+    {
+    float64 u ,	}
+packet Pad
+	{/// triple
+  } ")).
+Eval vm_compute in ("<<<M1262>>>" ++ check (runes_of_ascii "// top
+packet // c0
+B // c1
+{
+    // c2
+u8
+    // c3
+a , } root packet // c8a
+  // c8b
+P // c9a
+  // c9b
+{
+    // c10
+u8 // c11
+K , // c13
+u64 // c14a
+  // c14b
+L @lengthOf( // c16a
+  // c16b
+Body
+    // c17
+) , match // c20a
+  // c20b
+K as // c22a
+  // c22b
+Body // c23
+{ // c24a
+  // c24b
+1 : // c26a
+  // c26b
+B // c27a
+  // c27b
+,
+    // c28
+} // c29
+, // c30
+}
+    // c31
+")).
+Eval vm_compute in ("<<<M1393>>>" ++ check (runes_of_ascii "packet a1 {
+    char[] charz @calculatedFrom(""" ++ [28040; 24687]%N ++ runes_of_ascii """),
+    uint8x `crlf
+        line`,
+    uint64 T `line1
+        line2`,
+    @leftPad('0')
+    @calculatedFrom(""abc"")
+    @tag(3)
+    match int as len {
+        0 : chars,
+        [
+            10, 1, 0, 10, 0,
+            ""a\\""
+        ] : body,
+        007 : rootA,
+    },
+    falsey options1,
+}")).
+Eval vm_compute in ("<<<M1777>>>" ++ check (runes_of_ascii "packet BodyLength {
+    repeatCount `// not a comment`,
+    @lengthOf(lengthOf)
+    @tag(65535)
+    @rightPad('0')
+    /// triple
+    u8 Logon,
+}
+
+packet chars {
+    o msg_type,
+    @tag(10)
+    zchar[65535] f32a,
+    repeat char[] i64_ `
+    `,
+}
+
+root packet f32a {
+    @tag(255)
+    repeat u8 stringy,
+}")).
+Eval vm_compute in ("<<<M1491>>>" ++ check (runes_of_ascii "packet tag {
+}
+
+packet falsey {
+    string charz @lengthOf(zchar),
+    string u @calculatedFrom(""" ++ [233]%N ++ runes_of_ascii "t" ++ [233]%N ++ runes_of_ascii """) `// not a comment`,
+    @leftPad('0')
+    char[] leftPad @calculatedFrom(""a	b"") `// not a comment`,
+    @calculatedFrom(""`tick`"")
+    @lengthOf(roots)
+    repeat MetaDataX,
+}")).
+Eval vm_compute in ("<<<M1631>>>" ++ check (runes_of_ascii "packet Foo {
+    @lengthOf(f32a)
+    char[0123456789] float `u8 x,`,
+}
+
+packet i64_ {
+    @lengthOf(stringy)
+    char[] int @calculatedFrom(""{,}""),
+    @tag(007)
+    //
+    int64 stringy `" ++ [233]%N ++ runes_of_ascii "`,
+    char[] A @calculatedFrom(""\" ++ [233]%N ++ runes_of_ascii """) `doc`,// " ++ [27880; 37322]%N ++ runes_of_ascii "
+}")).
+Eval vm_compute in ("<<<M273>>>" ++ check (runes_of_ascii "root packet string_ { @leftPad (
+    ' ' )  chars { repeat
+zchar[ 0
+]  tag ,string falsey,// " ++ [128512]%N ++ runes_of_ascii " emoji
+repeat  char[ 007] body  `two words`
+    , } , @calculatedFrom(
+""// no comment"" ) Foo T
+    , // " ++ [128512]%N ++ runes_of_ascii " emoji
+}
+")).
+Eval vm_compute in ("<<<M169>>>" ++ check (runes_of_ascii "root packet
+    // `tick` ""quote"" 'q'
+    string_ { repeat
+char[00]  rootA
+    ,
+// " ++ [128512]%N ++ runes_of_ascii " emoji
+// " ++ [27880; 37322]%N ++ runes_of_ascii "
+}
+    MetaData u {i32 options1,
+}MetaData
+rootA
+{
+u16  chars	,
 /// triple
 //x
-0
-]x , } options { As =""\" ++ [233]%N ++ runes_of_ascii """ ;pack = ' ' ; int = // `tick` ""quote"" 'q'
-'\x00' ; options1 =
-""`tick`"" ; }")).
-Eval vm_compute in ("<<<M1430>>>" ++ check (runes_of_ascii "packet len {
 }
+")).
+Eval vm_compute in ("<<<M1196>>>" ++ check (runes_of_ascii "// top
+packet // c0a
+  // c0b
+body
+    // c1
+{ i32 // c3
+f32a
+    // c4
+`{ , }` // c5a
+  // c5b
+, }
+    // c7
+options // c8a
+  // c8b
+{ // c9
+} // c10a
+  // c10b
+")).
+Eval vm_compute in ("<<<M1384>>>" ++ check (runes_of_ascii "packet 
+uint8x
+    { match
+pack as
+msg_type{
 
-options {
-    Z9_ = 4294967296;
-    _x = 0
-    f32a = zchar[42];
-}
+    0123456789
+:float
+    }
 
-root packet BodyLength {
-}
+, }packet 	 //	t
+      a1
+	{ }	options
+	{  packetx
+=
 
-options {
-    string_ = u32;
-    charz = string;
-}
+char
+	;
 
-packet len {
-}")).
-Eval vm_compute in ("<<<M283>>>" ++ check (runes_of_ascii "
-root packet /// triple
-u8x {}options { o =	zchar[ 1 ]
-    Packet
-    // trailing space 
-    =u32 ; uint8x =""a\\"";
-    /// triple
-    u8x
-=0
-;
-    crc =""\n"" ; }")).
-Eval vm_compute in ("<<<M1924>>>" ++ check (runes_of_ascii "packet A {
-    match k as n {
-        [
-            1, 22, 007, 4, 5,
-            66, 7, 8, 9, 10,
-            11, 12
-        ] : B,
-        2 : C,
-    },
-}")).
-Eval vm_compute in ("<<<M403>>>" ++ check (runes_of_ascii "packet uint8x
-007 match pack
+u128 =""a	b"";  }")).
+Eval vm_compute in ("<<<M446>>>" ++ check (runes_of_ascii "packet uint8x
+{ match pack
     as msg_type	{
     0123456789 :	float
-}
+} }
 ,
 } packet //	t
 a1
     { } options {packetx
     = '\x00'	; u128= ""a	b""  ; }
 ")).
-Eval vm_compute in ("<<<M545>>>" ++ check (runes_of_ascii "packet uint8x
-{ match' pack
-    as msg_type	{
-    0123456789 :	float
-}
-,
-} packet //	t
-a1
-    { } options {packetx
-    = '\x00'	; u128= ""a	b""  ; }
-")).
-Eval vm_compute in ("<<<M502>>>" ++ check (runes_of_ascii "packet uint8x
+Eval vm_compute in ("<<<M1702>>>" ++ check (runes_of_ascii "packet
+stringy {}  MetaData u8x  {
+zchar[
+65535
+	// a // b
+	  ]
+Pad
+
+, stringy
+    string_
+`u8 x,`
+
+    , 
+u8
+lengthOf 
+`
+`,
+
+char[255 ] 
+pack,
+}")).
+Eval vm_compute in ("<<<M522>>>" ++ check (runes_of_ascii "packet uint8x
 { match pack
     as msg_type	{
     0123456789 :	float
@@ -929,241 +1093,252 @@ Eval vm_compute in ("<<<M502>>>" ++ check (runes_of_ascii "packet uint8x
 } packet //	t
 a1
     { } options {packetx
-    = ;	'\x00' u128= ""a	b""  ; }
+    = '\x00'	; u128= ;  ""a	b"" }
 ")).
-Eval vm_compute in ("<<<M433>>>" ++ check (runes_of_ascii "packet uint8x
-{ match pack
-    as msg_type	{
-    ""`tick`"" :	float
-}
-,
-} packet //	t
-a1
-    { } options {packetx
-    = '\x00'	; u128= ""a	b""  ; }
-")).
-Eval vm_compute in ("<<<M670>>>" ++ check (runes_of_ascii "// @lengthOf(
-packet i8i8 { u128 o , }
+Eval vm_compute in ("<<<M666>>>" ++ check (runes_of_ascii "// @lengthOf(
+packet i8i8 { u128 u128 o , }
 options { MetaDataX = true;
-    BodyLength =""packet"" x_y_z= 007
-crc //x
-= ""abc"" ;
-    msg_type = =
-i16 }")).
-Eval vm_compute in ("<<<M662>>>" ++ check (runes_of_ascii "// @lengthOf(
-packet i8i8 { u128 o , }
-{ options MetaDataX = true;
     BodyLength =""packet"" x_y_z= 007
 crc //x
 = ""abc"" ;
     msg_type =
 i16 }")).
-Eval vm_compute in ("<<<M1435>>>" ++ check (runes_of_ascii "// top
-packet B {
-    // c2
-    u8 a,
-    string s,
-}
-
-root packet P {
-    // c13
-    u16 L @lengthOf(B),
-    // c19
-    B,
-    u8 t,// c24
-}")).
-Eval vm_compute in ("<<<M714>>>" ++ check (runes_of_ascii "// @lengthOf(
+Eval vm_compute in ("<<<M695>>>" ++ check (runes_of_ascii "// @lengthOf(
 packet i8i8 { u128 o , }
 options { MetaDataX = true;
-    BodyLength =""packet"" x_y_z= 007
+    BodyLe@xngth =""packet"" x_y_z= 007
 crc //x
 = ""abc"" ;
-    msg_type")).
-Eval vm_compute in ("<<<M1928>>>" ++ check (runes_of_ascii "packet i64_ {
-}
-
-MetaData uint8x {
-    Packet tag,
-    u8 repeatCount,
-    x_y_z _x `" ++ [233]%N ++ runes_of_ascii "`,
-    zchar[42] crc `a\`,
-}
-
-options {
-}")).
-Eval vm_compute in ("<<<M1653>>>" ++ check (runes_of_ascii "root packet string_ {
-    repeat char[00] rootA,
-}
-
-MetaData u {
-    i32 options1,
-}
-
-MetaData rootA {
-    u16 chars,
-}")).
-Eval vm_compute in ("<<<M1171>>>" ++ check (runes_of_ascii "MetaData leftPad { chars MetaDataX , } packet repeatCount { char[ 255 ] uint8x `" ++ [233]%N ++ runes_of_ascii "` // c
-, } MetaData pack { As Foo , }")).
-Eval vm_compute in ("<<<M1728>>>" ++ check (runes_of_ascii "MetaData Packet {
-    u lengthOf `say ""hi""`,
-}
-
-MetaData metadata {
-    crc chars `crlf
-    line`,
-    asx f32a,
-}")).
-Eval vm_compute in ("<<<M902>>>" ++ check (runes_of_ascii "packet A {
-  match k as n {
-    [""a"", ""bb"", 007, ""d"", ""e"", 66, ""g"", ""h"", 9, ""j"", ""k""] : B
-    2 : C
-  },
-}")).
-Eval vm_compute in ("<<<M867>>>" ++ check (runes_of_ascii "packet A {
-  match k as n {
-    [""a"", ""bb"", ""c c"", ""d"", ""e"", ""f"", ""g"", ""h"", ""i""] : B,
-    2 : C
-  },
-}")).
-Eval vm_compute in ("<<<M900>>>" ++ check (runes_of_ascii "packet A {
-  match k as n {
-    [1, 22, ""c c"", 4, 5, ""f"", 7, 8, ""i"", 10, 11] : B
-    2 : C
-  },
-}")).
-Eval vm_compute in ("<<<M565>>>" ++ check (runes_of_ascii "
-packet
-    asx true match u128 as lengthOf
-{
-//	t
-// `tick` ""quote"" 'q'
-255 : x ,
-    } ,	}")).
-Eval vm_compute in ("<<<M682>>>" ++ check (runes_of_ascii "// @lengthOf(
+    msg_type =
+i16 }")).
+Eval vm_compute in ("<<<M707>>>" ++ check (runes_of_ascii "// @lengthOf(
 packet i8i8 { u128 o , }
 options { MetaDataX = true;
-    BodyLength =""packet""")).
-Eval vm_compute in ("<<<M609>>>" ++ check (runes_of_ascii "
+    BodyLength =MetaData x_y_z= 007
+crc //x
+= ""abc"" ;
+    msg_type =
+i16 }")).
+Eval vm_compute in ("<<<M1428>>>" ++ check (runes_of_ascii "
 packet
-    asx {match u128 as lengthOf
+    A
+{ 
+match 
+k
+
+    as  n
+
 {
-//	t
-// `tick` ""quote"" 'q'
-255 : x }
-    , ,	}")).
-Eval vm_compute in ("<<<M1663>>>" ++ check (runes_of_ascii "packet A {
-    match k as n {
-        [1, 22, 4, 5, ""c c""] : B,
-        2 : C,
+	[
+
+    ""a""	,22 ,	""c c""
+
+    , 4
+
+    ,	""e""
+,66
+, ""g""  ]	:B
+, 2
+
+    :
+	C}
+,
+
+    }
+")).
+Eval vm_compute in ("<<<M1266>>>" ++ check (runes_of_ascii "  packet B
+    {
+u8 a
+	,
+    } 
+root  packet
+
+P {
+u8
+    K  ,
+	match
+    K as Body
+
+{
+1
+
+:  B,
+}  ,
+	u16	L@lengthOf(	Body
+
+) ,
+	}
+")).
+Eval vm_compute in ("<<<M1261>>>" ++ check (runes_of_ascii "packet B {
+    u8 a,
+}
+root packet P {
+    u8 K,
+    u64 L @lengthOf(Body),
+    match K as Body {
+        1 : B,
     },
+}
+")).
+Eval vm_compute in ("<<<M1155>>>" ++ check (runes_of_ascii "MetaData leftPad { chars MetaDataX , } // c
+packet repeatCount { char[ 255 ] uint8x `" ++ [233]%N ++ runes_of_ascii "` , } MetaData pack { As Foo , }")).
+Eval vm_compute in ("<<<M1187>>>" ++ check (runes_of_ascii "MetaData leftPad { chars MetaDataX , } packet repeatCount { char[ 255 ] uint8x `" ++ [233]%N ++ runes_of_ascii "` , } MetaData pack { As Foo , // c
 }")).
-Eval vm_compute in ("<<<M1744>>>" ++ check (runes_of_ascii "packet A {
-    match k as n {
-        [1, 22, 4, ""c c""] : B,
-        2 : C,
-    },
-}")).
-Eval vm_compute in ("<<<M824>>>" ++ check (runes_of_ascii "packet A {
+Eval vm_compute in ("<<<M894>>>" ++ check (runes_of_ascii "packet A {
   match k as n {
-    [""a"", ""bb"", 007, ""d"", ""e""] : B
+    [""a"", ""bb"", ""c c"", ""d"", ""e"", ""f"", ""g"", ""h"", ""i"", ""j"", ""k""] : B
     2 : C
   },
 }")).
-Eval vm_compute in ("<<<M1635>>>" ++ check (runes_of_ascii "
-packet
+Eval vm_compute in ("<<<M1932>>>" ++ check (runes_of_ascii "  packet  A { match k
+    as 
+n 
+{ [ 1 , 22
 
-    body
+    , 007
 
-    {	// c
-    i32 f32a
-	`{ , }`
-	,
+    ,4
+,	5
+
+, 
+66 ,
+    7	] :B , 2
+:C
+
+}
+,
+}")).
+Eval vm_compute in ("<<<M1317>>>" ++ check (runes_of_ascii "packet FooBar {
+    u8 a,
+}
+packet foo_bar {
+    u16 b,
+}
+root packet R {
+    FooBar,
+    foo_bar,
+}
+")).
+Eval vm_compute in ("<<<M932>>>" ++ check (runes_of_ascii "packet A {
+    Inner {
+        u8 x `
+`,
+        Deep {
+            u8 y `
+`,
+        },
+    },
+}")).
+Eval vm_compute in ("<<<M891>>>" ++ check (runes_of_ascii "packet A {
+  match k as n {
+    [1, 22, 007, 4, 5, 66, 7, 8, 9, 10, 11] : B,
+    2 : C
+  },
+}")).
+Eval vm_compute in ("<<<M229>>>" ++ check (runes_of_ascii "// a // b
+options{
+Foo
+= '\x00'
+    pack
+= zchar[ 65535]
+// " ++ [128512]%N ++ runes_of_ascii " emoji
+//x
+;	int = ""\n"" ;	}
+")).
+Eval vm_compute in ("<<<M874>>>" ++ check (runes_of_ascii "packet A {
+  match k as n {
+    [1, 22, ""c c"", 4, 5, ""f"", 7, 8, ""i""] : B
+    2 : C
+  },
+}")).
+Eval vm_compute in ("<<<M771>>>" ++ check (runes_of_ascii "true @tag( root : repeat @calculatedFrom( match f64 int32 ] { zchar[ packet @lengthOf(")).
+Eval vm_compute in ("<<<M837>>>" ++ check (runes_of_ascii "packet A {
+  match k as n {
+    [""a"", ""bb"", 007, ""d"", ""e"", 66] : B
+    2 : C
+  },
+}")).
+Eval vm_compute in ("<<<M839>>>" ++ check (runes_of_ascii "packet A {
+  match k as n {
+    [1, 22, 007, 4, 5, 66, 7] : B,
+    2 : C
+  },
+}")).
+Eval vm_compute in ("<<<M810>>>" ++ check (runes_of_ascii "packet A {
+  match k as n {
+    [""a"", ""bb"", 007, ""d""] : B,
+    2 : C
+  },
+}")).
+Eval vm_compute in ("<<<M1386>>>" ++ check (runes_of_ascii "packet roots {
+    len leftPad `// not a comment`,
 }
 
+packet packetx {
+}")).
+Eval vm_compute in ("<<<M768>>>" ++ check (runes_of_ascii "char = char[] options char[] ] uint64 metadata match 1 zchar[ int16")).
+Eval vm_compute in ("<<<M1444>>>" ++ check (runes_of_ascii "
+packet
+	body { i32 
+    // c
+
+  f32a`{ , }` 
+, } 
 options{
 }
 ")).
-Eval vm_compute in ("<<<M960>>>" ++ check (runes_of_ascii "packet A {
-    B b `tab
-	x`,
-    B `tab
-	x`,
-    repeat B bs `tab
-	x`,
+Eval vm_compute in ("<<<M1091>>>" ++ check (runes_of_ascii "packet A { @leftPad() char[4] x, @rightPad( ) zchar[2] y, }")).
+Eval vm_compute in ("<<<M1506>>>" ++ check (runes_of_ascii "root packet A
+	{
+
+    u8
+
+    x
+`a
+b` ,
+
+    }")).
+Eval vm_compute in ("<<<M341>>>" ++ check (runes_of_ascii "options  { len = // " ++ [128512]%N ++ runes_of_ascii " emoji
+""packet"" int
+= ""abc""}")).
+Eval vm_compute in ("<<<M968>>>" ++ check (runes_of_ascii "options {
+    a = ""x\
+y"";
+    b = ""x\
+y""
 }")).
-Eval vm_compute in ("<<<M1788>>>" ++ check (runes_of_ascii "
-
-  options
-	{ asx
-
-=""1""	//	t
-
-Pad  =
-
-    0	stringy= '\x00'
-;  }
-")).
-Eval vm_compute in ("<<<M784>>>" ++ check (runes_of_ascii "packet A {
-  match k as n {
-    [""a"", 22] : B,
-    2 : C
-  },
+Eval vm_compute in ("<<<M1388>>>" ++ check (runes_of_ascii "options {
+    a = 1// c
+    b = 2;// d
 }")).
-Eval vm_compute in ("<<<M1575>>>" ++ check (runes_of_ascii "packet A {
-    @tag(1)
-    u8 x,// b
-    @tag(2)
-    u8 y,
-}")).
-Eval vm_compute in ("<<<M1245>>>" ++ check (runes_of_ascii "root
-    packet	P
-{repeat
+Eval vm_compute in ("<<<M1687>>>" ++ check (runes_of_ascii "packet A {u8
 
-char 
-cs  ,u8
+x`d" ++ [11]%N ++ runes_of_ascii "`
 
-    x ,} ")).
-Eval vm_compute in ("<<<M1213>>>" ++ check (runes_of_ascii "packet body { i32 f32a `{ , }` , } // c
-options { }")).
-Eval vm_compute in ("<<<M1611>>>" ++ check (runes_of_ascii "root packet
-P
-    {
-char	c
-
-    ,	u8
-	x,
-}
+, // c" ++ [11]%N ++ runes_of_ascii "
+  }
 
 ")).
-Eval vm_compute in ("<<<M337>>>" ++ check (runes_of_ascii "//	t
-options
+Eval vm_compute in ("<<<M959>>>" ++ check (runes_of_ascii "packet A {
+    u8 x `tab
+	x`,
+}")).
+Eval vm_compute in ("<<<M1934>>>" ++ check (runes_of_ascii "// c
+packet asx {
+}/// triple")).
+Eval vm_compute in ("<<<M1830>>>" ++ check (runes_of_ascii "root packet msg_type {
+}")).
+Eval vm_compute in ("<<<M1105>>>" ++ check (runes_of_ascii "MetaData // c
+tag { }")).
+Eval vm_compute in ("<<<M1135>>>" ++ check (runes_of_ascii "MetaData u {
 // c
-// " ++ [128512]%N ++ runes_of_ascii " emoji
-{
-    } // c")).
-Eval vm_compute in ("<<<M1438>>>" ++ check (runes_of_ascii "options {
-    T = '0';
-    A = u8;
 }")).
-Eval vm_compute in ("<<<M738>>>" ++ check (runes_of_ascii "\B1ss""~3@|Nr!9$[0mx>ti>t+Fp_cN&")).
-Eval vm_compute in ("<<<M1777>>>" ++ check (runes_of_ascii "
-MetaData tag	{
-	    // c
-	} ")).
-Eval vm_compute in ("<<<M713>>>" ++ check (runes_of_ascii "// @lengthOf(
-packet i8i8")).
-Eval vm_compute in ("<<<M63>>>" ++ check (runes_of_ascii "packet i64_
-    { }
-
+Eval vm_compute in ("<<<M1036>>>" ++ check (runes_of_ascii "packet A {
+}
+// c" ++ [12]%N)).
+Eval vm_compute in ("<<<M1024>>>" ++ check (runes_of_ascii "packet A {
+}// c" ++ [8287]%N)).
+Eval vm_compute in ("<<<M1586>>>" ++ check (runes_of_ascii "  /// triple
 ")).
-Eval vm_compute in ("<<<M1042>>>" ++ check (runes_of_ascii "// c 	
-packet A {
-}")).
-Eval vm_compute in ("<<<M1017>>>" ++ check (runes_of_ascii "// c" ++ [8233]%N ++ runes_of_ascii "
-packet A {
-}")).
-Eval vm_compute in ("<<<M989>>>" ++ check (runes_of_ascii "packet A {
-}// c" ++ [133]%N)).
-Eval vm_compute in ("<<<M761>>>" ++ check (runes_of_ascii "{];z" ++ [65533]%N ++ runes_of_ascii """t" ++ [65533; 65533; 65533]%N ++ runes_of_ascii "XKU" ++ [65533; 2]%N)).
 Eval vm_compute in ("<<<M252>>>" ++ check (runes_of_ascii " // c")).
-Eval vm_compute in ("<<<M737>>>" ++ check ([1875; 65533]%N)).
+Eval vm_compute in ("<<<M86>>>" ++ check (runes_of_ascii "  ")).
